@@ -111,21 +111,30 @@ class RealWorld:
         # the agents, so the set of encodings in the simulation is the same) and get their final encodings through
         # the public `encoding` setter once the property module has built its components (`finish`): a component
         # reads an agent's current encoding, not one it saw at construction.  The state is loaded after that.
+        # another history (`late`: k): the last k agents (plain ones: they neither move, attack nor observe, and their
+        # encodings occur among the others) are put into the agents dictionary - the one object the simulation and all
+        # its components share - only after the components were built: a component sees the agents that are in the
+        # dictionary now, not a copy taken at construction.
         enc0 = desc.get("enc0")
+        late = int(desc.get("late") or 0)
         self.agent_list = [make_agent(i, dict(a, enc=enc0[i]) if enc0 else a) for i, a in enumerate(desc["agents"])]
-        self.agents = {a.id: a for a in self.agent_list}
+        self.agents = {a.id: a for a in self.agent_list[:len(self.agent_list) - late]}
         self.idx = {a.id: i for i, a in enumerate(self.agent_list)}
         self.grid.reset()
-        self._unfinished = bool(enc0)
-        if desc.get("state") is not None and not enc0:
+        self._unfinished = bool(enc0) or late > 0
+        if desc.get("state") is not None and not self._unfinished:
             self.set_state(desc["state"])
 
     def finish(self):
         """see `enc0` above; a no-op otherwise"""
         if self._unfinished:
             self._unfinished = False
-            for a, spec in zip(self.agent_list, self.desc["agents"]):
-                a.encoding = int(str(spec["enc"]))
+            if self.desc.get("enc0"):
+                for a, spec in zip(self.agent_list, self.desc["agents"]):
+                    a.encoding = int(str(spec["enc"]))
+            for a in self.agent_list:
+                if a.id not in self.agents:
+                    self.agents[a.id] = a
             if self.desc.get("state") is not None:
                 self.set_state(self.desc["state"])
 
@@ -193,6 +202,59 @@ def _rng(v, world):
 
 # ----------------------------------------------------------------------------------------------
 # generators of legal worlds
+
+_FRAGILE = {}
+
+
+def fragile_ties(rmax=40):
+    """[(dr, dc, r, c)]: a blocking agent at offset (dr, dc) from the viewer (dc >= 1, dr >= 0) and a cell (r, c) beyond it
+    that lies exactly ON one of the two rays bounding its shadow - r == a c / b with a = 2 dr +- 1, b = 2 dc +- 1 - and
+    is therefore visible (the comparison is strict).  Kept are the ties at which SOME floating-point evaluation order
+    of a c / b (a (c / b), (a / b) c, a c (1 / b), c / (b / a)) misses the exact integer, so that a re-arranged formula
+    hides or shows the cell; (a c) / b, the order the code uses, is exact at every tie.  The first ones need range 9."""
+    if rmax not in _FRAGILE:
+        out = []
+        for dc in range(1, rmax + 1):
+            for dr in range(0, rmax + 1):
+                for s1 in (1, -1):
+                    for s2 in (1, -1):
+                        a, b = 2 * dr + s1, 2 * dc + s2
+                        if a <= 0 or b <= 0:
+                            continue
+                        for t in range(dc + 1, rmax + 1):
+                            if (a * t) % b == 0 and dr <= a * t // b <= rmax:
+                                r = a * t // b
+                                if any(x != r for x in (a * (t / b), (a / b) * t, a * t * (1 / b), t / (b / a))):
+                                    out.append((dr, dc, r, t))
+        _FRAGILE[rmax] = sorted(set(out))
+    return _FRAGILE[rmax]
+
+
+def maybe_late(rng, desc, p=0.08):
+    """with probability p: the history `late` (see RealWorld).  Re-orders the agents (the late ones last): call it
+    before anything that refers to agents by index is generated"""
+    if rng.random() >= p:
+        return desc
+    ags = desc["agents"]
+    n = len(ags)
+    cand = [i for i, a in enumerate(ags) if not any(a.get(k) for k in ("moving", "attacking", "observing", "has_ammo",
+                                                                       "has_orient"))]
+    rng.shuffle(cand)
+    late = []
+    for i in cand[:2]:
+        if ags[i]["enc"] in {a["enc"] for j, a in enumerate(ags) if j != i and j not in late}:
+            late.append(i)
+    if not late or len(late) == n:
+        return desc
+    order = [i for i in range(n) if i not in late] + late
+    desc["agents"] = [ags[i] for i in order]
+    if desc.get("state") is not None:
+        desc["state"] = [desc["state"][i] for i in order]
+    desc["late"] = len(late)
+    if "main" in desc:                       # (p_attack: the index of the main attacker)
+        desc["main"] = order.index(desc["main"])
+    return desc
+
 
 def maybe_enc0(rng, desc, p=0.1):
     """with probability p: the history `enc0` (see RealWorld) - the agents are constructed with a permutation of
